@@ -10,7 +10,8 @@ From SV Require Import C12.Lts C12.Conn C12.ConnProofs C12.Refs C12.RefsProofs
   C12.OffMgr C12.OffMgrProofs C12.OffMgrSim
   C12.PCons C12.PConsProofs C12.PConsSafety C12.PConsSim C12.PConsAccept C12.PConsNoOor
   C12.Group C12.GroupProofs C12.GroupSafety C12.GroupSim C12.GroupAccept C12.GroupTerm C12.GroupTerminates
-  C12.Prod C12.ProdProofs C12.ProdSafety C12.ProdSim C12.ProdAccept.
+  C12.PConsTerm C12.PConsProgress
+  C12.Prod C12.ProdProofs C12.ProdSafety C12.ProdSim C12.ProdAccept C12.ProdTerm C12.ProdProgress.
 Import ListNotations.
 
 (* Print Assumptions walks the whole proof below a theorem; statements about the same component are therefore
@@ -157,6 +158,27 @@ Theorem c12_group_terminates : forall c, Grp.elock c = true ->
   Terminates (Grp.step c) (fun s => Reach (Grp.step c) (Grp.init c) s /\ Grp.closed_ch s = true) Grp.final.
 Proof. exact GrpTT.group_terminates. Qed.
 Print Assumptions c12_group_terminates.
+
+(* partition consumer — partial: the progress half.  After AsyncClose / Close there is no reachable deadlock: a state
+   in which no step is enabled has dispatcher, feeder, subscription manager and subscription consumer returned and
+   messages / errors closed.  The full statement (additionally: no infinite run) is the Definition below. *)
+Theorem c12_consumer_terminates_partial : forall c s, Reach (PC.step c) (PC.init c) s -> PC.dying (PC.ch s) = true ->
+  stuck (PC.step c) s -> PC.final s.
+Proof. exact PCTT.pc_shutdown_progress. Qed.
+Print Assumptions c12_consumer_terminates_partial.
+
+Definition c12_consumer_terminates : Prop := PCTT.pc_terminates_statement.
+
+(* async producer — partial: the progress half of the close cascade.  Once shutdown() has passed inFlight.Wait(), a
+   state in which no step is enabled has the four public channels closed and every goroutine of the producer
+   returned.  The full statement (from AsyncClose on, every run is finite and ends closed — which includes that
+   everything in flight gets resolved, the liveness side of property C01) is the Definition below. *)
+Theorem c12_producer_terminates_partial : forall c s, Reach (Prod.step c) (Prod.init c) s -> ProdP.sLate (Prod.sp s) = 1 ->
+  stuck (Prod.step c) s -> Prod.final s.
+Proof. exact ProdTT.prod_cascade_progress. Qed.
+Print Assumptions c12_producer_terminates_partial.
+
+Definition c12_producer_terminates : Prop := ProdTT.prod_terminates_statement.
 
 Theorem c12_client_broker_terminate :
   (forall c, Terminates (Client.step c) (fun s => Reach (Client.step c) (Client.init c) s /\ Client.closer s = true) Client.final) /\
